@@ -105,6 +105,13 @@ package cbor
 // ---- decoder (C12): reads are specified over the reader's ghost stream
 // (sdata, spos, send), see /verif/govc/stdlib/io.spec.
 
+// beValue(a, o, k) is the big-endian unsigned value of the k bytes a[o..o+k), k <= 8
+// (defined by: every byte of it, from the most significant, and its range).
+//@ uf beValue(bytearray, int, int) uint64
+//@ uf beIs(bytearray, int, int, uint64) bool
+//@ axiom beIs_intro: forall a bytearray, o int, nf int, n uint64 :: (0 <= nf && nf <= 8 && (forall k int :: 0 <= k && k < nf ==> byte(n >> (8*uint64(nf-1-k))) == a[o+k]) && (nf < 8 ==> n < uint64(1) << (8*uint64(nf)))) ==> beIs(a, o, nf, n)
+//@ axiom beIs_value: forall a bytearray, o int, nf int, n uint64 :: beIs(a, o, nf, n) ==> n == beValue(a, o, nf)
+
 //@ def nfOfAI(ai byte) int = ai == 24 ? 1 : (ai == 25 ? 2 : (ai == 26 ? 4 : (ai == 27 ? 8 : 0)))
 
 //@ func (*Decoder).ReadByte
@@ -125,7 +132,8 @@ package cbor
 //@   ensures err == nil ==> byte(t) == (sdata(d.r)[old(spos(d.r))] & 224)
 //@   ensures err == nil ==> spos(d.r) == old(spos(d.r)) + 1 + nfOfAI(sdata(d.r)[old(spos(d.r))] & 31)
 //@   ensures err == nil && nfOfAI(sdata(d.r)[old(spos(d.r))] & 31) == 0 ==> n == uint64(sdata(d.r)[old(spos(d.r))] & 31)
-//@   ensures err == nil ==> forall k int :: 0 <= k && k < nfOfAI(sdata(d.r)[old(spos(d.r))] & 31) ==> byte(n >> (8*uint64(nfOfAI(sdata(d.r)[old(spos(d.r))] & 31)-1-k))) == sdata(d.r)[old(spos(d.r)) + 1 + k]
+//@   ensures[value] err == nil && nfOfAI(sdata(d.r)[old(spos(d.r))] & 31) > 0 ==> beIs(sdata(d.r), old(spos(d.r)) + 1, nfOfAI(sdata(d.r)[old(spos(d.r))] & 31), n)
+//@   ensures[top-byte] err == nil && nfOfAI(sdata(d.r)[old(spos(d.r))] & 31) == 8 ==> byte(n >> 56) == sdata(d.r)[old(spos(d.r)) + 1]
 //@   ensures err == nil && 0 < nfOfAI(sdata(d.r)[old(spos(d.r))] & 31) && nfOfAI(sdata(d.r)[old(spos(d.r))] & 31) < 8 ==> n < uint64(1) << (8*uint64(nfOfAI(sdata(d.r)[old(spos(d.r))] & 31)))
 //@   ensures spos(d.r) >= old(spos(d.r)) && spos(d.r) <= send(d.r)
 //@   assigns spos(d.r)
@@ -143,7 +151,53 @@ package cbor
 //@   ensures err == nil ==> (sdata(d.r)[old(spos(d.r))] & 224) == byte(expected) && (sdata(d.r)[old(spos(d.r))] & 31) < 28
 //@   ensures err == nil ==> spos(d.r) == old(spos(d.r)) + 1 + nfOfAI(sdata(d.r)[old(spos(d.r))] & 31)
 //@   ensures err == nil && nfOfAI(sdata(d.r)[old(spos(d.r))] & 31) == 0 ==> n == uint64(sdata(d.r)[old(spos(d.r))] & 31)
-//@   ensures err == nil ==> forall k int :: 0 <= k && k < nfOfAI(sdata(d.r)[old(spos(d.r))] & 31) ==> byte(n >> (8*uint64(nfOfAI(sdata(d.r)[old(spos(d.r))] & 31)-1-k))) == sdata(d.r)[old(spos(d.r)) + 1 + k]
+//@   ensures[value] err == nil && nfOfAI(sdata(d.r)[old(spos(d.r))] & 31) > 0 ==> beIs(sdata(d.r), old(spos(d.r)) + 1, nfOfAI(sdata(d.r)[old(spos(d.r))] & 31), n)
+//@   ensures[top-byte] err == nil && nfOfAI(sdata(d.r)[old(spos(d.r))] & 31) == 8 ==> byte(n >> 56) == sdata(d.r)[old(spos(d.r)) + 1]
 //@   ensures err == nil && 0 < nfOfAI(sdata(d.r)[old(spos(d.r))] & 31) && nfOfAI(sdata(d.r)[old(spos(d.r))] & 31) < 8 ==> n < uint64(1) << (8*uint64(nfOfAI(sdata(d.r)[old(spos(d.r))] & 31)))
+//@   ensures spos(d.r) >= old(spos(d.r)) && spos(d.r) <= send(d.r)
+//@   assigns spos(d.r)
+
+//@ func (*Decoder).DecodeUint
+//@   arith bv
+//@   props C12 C10
+//@   returns (n, err)
+//@   requires d.r != nil
+//@   ensures err == nil ==> (sdata(d.r)[old(spos(d.r))] & 224) == 0 && (sdata(d.r)[old(spos(d.r))] & 31) < 28
+//@   ensures err == nil ==> spos(d.r) == old(spos(d.r)) + 1 + nfOfAI(sdata(d.r)[old(spos(d.r))] & 31)
+//@   ensures spos(d.r) >= old(spos(d.r)) && spos(d.r) <= send(d.r)
+//@   assigns spos(d.r)
+
+//@ func (*Decoder).DecodeArrayHeader
+//@   arith bv
+//@   props C12 C10
+//@   returns (n, err)
+//@   requires d.r != nil
+//@   ensures err == nil ==> (sdata(d.r)[old(spos(d.r))] & 224) == 128 && (sdata(d.r)[old(spos(d.r))] & 31) < 28
+//@   ensures err == nil ==> spos(d.r) == old(spos(d.r)) + 1 + nfOfAI(sdata(d.r)[old(spos(d.r))] & 31)
+//@   ensures spos(d.r) >= old(spos(d.r)) && spos(d.r) <= send(d.r)
+//@   assigns spos(d.r)
+
+//@ func (*Decoder).DecodeMapHeader
+//@   arith bv
+//@   props C12 C10
+//@   returns (n, err)
+//@   requires d.r != nil
+//@   ensures err == nil ==> (sdata(d.r)[old(spos(d.r))] & 224) == 160 && (sdata(d.r)[old(spos(d.r))] & 31) < 28
+//@   ensures err == nil ==> spos(d.r) == old(spos(d.r)) + 1 + nfOfAI(sdata(d.r)[old(spos(d.r))] & 31)
+//@   ensures spos(d.r) >= old(spos(d.r)) && spos(d.r) <= send(d.r)
+//@   assigns spos(d.r)
+
+// decodeBytesOfType: the declared length n (an untrusted uint64) must be
+// honoured exactly: on success n bytes were consumed and returned.
+//@ func (*Decoder).decodeBytesOfType
+//@   props C12 C10
+//@   returns (out, err)
+//@   requires d.r != nil
+//@   ensures err == nil ==> (sdata(d.r)[old(spos(d.r))] & 224) == byte(expected) && (sdata(d.r)[old(spos(d.r))] & 31) < 28
+//@   ensures[length-honoured] err == nil ==> spos(d.r) == old(spos(d.r)) + 1 + nfOfAI(sdata(d.r)[old(spos(d.r))] & 31) + len(out)
+//@   ensures[length-is-declared] err == nil && nfOfAI(sdata(d.r)[old(spos(d.r))] & 31) == 0 ==> len(out) == int(sdata(d.r)[old(spos(d.r))] & 31)
+//@   ensures[length-fits] err == nil && nfOfAI(sdata(d.r)[old(spos(d.r))] & 31) == 8 ==> sdata(d.r)[old(spos(d.r)) + 1] < 128
+//@   ensures[length-is-declared-k] err == nil && nfOfAI(sdata(d.r)[old(spos(d.r))] & 31) > 0 ==> uint64(len(out)) == beValue(sdata(d.r), old(spos(d.r)) + 1, nfOfAI(sdata(d.r)[old(spos(d.r))] & 31))
+//@   ensures[content] err == nil ==> forall i int :: 0 <= i && i < len(out) ==> out[i] == sdata(d.r)[old(spos(d.r)) + 1 + nfOfAI(sdata(d.r)[old(spos(d.r))] & 31) + i]
 //@   ensures spos(d.r) >= old(spos(d.r)) && spos(d.r) <= send(d.r)
 //@   assigns spos(d.r)
